@@ -171,12 +171,11 @@ func checkC10(w *World, c *Check) {
 		}
 	})
 	shapes := [][]int{{1}, {2}, {1, 1}, {2, 1}, {1, 2}, {3}, {1, 1, 1}, {1, 3}, {2, 2}, {3, 1}, {1, 1, 2}, {1, 2, 1}}
-	// one five-entry shape in the quick tier too: two removals in one list with two entries behind them is the
-	// smallest case in which the in-place deletion reads entries it has already moved (seed C10-m4)
-	shapes = append(shapes, []int{1, 4})
 	if c.Tier == "thorough" {
-		// deeper: every split of five entries over at most three lists that puts a duplicate candidate after two survivors
-		shapes = append(shapes, []int{4}, []int{2, 3}, []int{3, 2}, []int{1, 1, 3}, []int{2, 1, 2})
+		// deeper: every split of five entries over at most three lists that puts a duplicate candidate after two survivors;
+		// these shapes run with append modelled in place (seed C10-m4 needs five entries and the aliasing). They are not in
+		// the quick tier: on changed code (seed C10-m1) the in-place VCs of [1 4] did not finish within minutes
+		shapes = append(shapes, []int{4}, []int{2, 3}, []int{3, 2}, []int{1, 4}, []int{1, 1, 3}, []int{2, 1, 2})
 	}
 	for _, shape := range shapes {
 		dedupBounded(w, c, shape)
@@ -329,7 +328,14 @@ func dedupBounded(w *World, c *Check, shape []int) {
 	}
 	guard(c, grp, func() {
 		ex := w.NewExec()
-		ex.inPlaceAppend = true // the in-place delete really shifts the entries later iterations read
+		// the in-place delete really shifts the entries later iterations read: modelled for the five-entry shapes (the
+		// smallest in which it matters, seed C10-m4); the shapes of up to four entries keep the fresh-array model, whose
+		// VCs stay small on changed code as well (with the in-place model a run on the C10-m1 seed did not end in 29 min)
+		total := 0
+		for _, n := range shape {
+			total += n
+		}
+		ex.inPlaceAppend = total >= 5
 		ex.symLoopBound = total + 1
 		ex.unwindAssert = true
 		installIsNilSpecHook(ex)
